@@ -154,12 +154,13 @@ def corruptions(ctx, H, rng, version1, version2):
     # ---- v1 ----
     for sep in ("\r\n", "\n"):
         bad_values = {
-            "DATA": ["OFXXML", "SGML", "OFXSGMLX"],
-            "SECURITY": ["TYPE2", "NONEX", "type1"],
-            "ENCODING": ["UTF-16", "ASCII", "USASCI"],
-            "CHARSET": ["1253", "UTF-8", "ISO-8859-2", "none"],
-            "COMPRESSION": ["GZIP", "ZIP"],
-            "OFXHEADER": ["200", "101", "1000", "abc"],
+            # incl. tokens that are legal for a DIFFERENT field (a validator must not accept a neighbour's token)
+            "DATA": ["OFXXML", "SGML", "OFXSGMLX", "NONE", "USASCII", "TYPE1"],
+            "SECURITY": ["TYPE2", "NONEX", "type1", "USASCII", "OFXSGML", "UNICODE"],
+            "ENCODING": ["UTF-16", "ASCII", "USASCI", "TYPE1", "NONE", "OFXSGML"],
+            "CHARSET": ["1253", "UTF-8", "ISO-8859-2", "none", "USASCII", "TYPE1"],
+            "COMPRESSION": ["GZIP", "ZIP", "OFXSGML", "TYPE1", "USASCII"],
+            "OFXHEADER": ["200", "101", "1000", "abc", "0", "00", "000"],
             "VERSION": ["1O2", "abc", "1020", "10200", "1.2"],
             "OLDFILEUID": [long37, long60],
             "NEWFILEUID": [long37, long60],
@@ -179,9 +180,9 @@ def corruptions(ctx, H, rng, version1, version2):
     # ---- v2 ----
     for q in ('"', "'"):
         bad_values = {
-            "OFXHEADER": ["100", "201", "abc"],
-            "VERSION": ["204", "199", "221", "2030", "abc", "2O3", "20"],
-            "SECURITY": ["TYPE2", "none"],
+            "OFXHEADER": ["100", "201", "abc", "0", "00"],
+            "VERSION": ["204", "199", "221", "2030", "abc", "2O3", "20", "0"],
+            "SECURITY": ["TYPE2", "none", "USASCII", "OFXSGML"],
             "OLDFILEUID": [long37, long60],
             "NEWFILEUID": [long37, long60],
         }
@@ -205,10 +206,11 @@ def corruptions(ctx, H, rng, version1, version2):
 
 
 def constructor_refusals(ctx, H):
-    bad_v1 = [dict(version=102, data="OFXXML"), dict(version=102, security="TYPE2"), dict(version=102, encoding="UTF-16"), dict(version=102, charset="1253"),
+    bad_v1 = [dict(version=102, data="NONE"), dict(version=102, security="USASCII"), dict(version=102, encoding="TYPE1"), dict(version=102, compression="OFXSGML"),
+              dict(version=102, data="OFXXML"), dict(version=102, security="TYPE2"), dict(version=102, encoding="UTF-16"), dict(version=102, charset="1253"),
               dict(version=102, compression="GZIP"), dict(version=102, ofxheader=200), dict(version=1020), dict(version="abc"),
               dict(version=102, oldfileuid="x" * 37), dict(version=102, newfileuid="x" * 37)]
-    bad_v2 = [dict(version=204), dict(version=199), dict(version="abc"), dict(version=203, ofxheader=100), dict(version=203, security="TYPE2"),
+    bad_v2 = [dict(version=203, security="USASCII"), dict(version=204), dict(version=199), dict(version="abc"), dict(version=203, ofxheader=100), dict(version=203, security="TYPE2"),
               dict(version=203, oldfileuid="x" * 37), dict(version=203, newfileuid="x" * 37), dict(version=2030)]
     for cls, bads in ((H.OFXHeaderV1, bad_v1), (H.OFXHeaderV2, bad_v2)):
         for kw in bads:
